@@ -193,6 +193,34 @@ def rmsd_probe(md, t):
     return worst
 
 
+def expected_join(alls, dis):
+    """model-free statement of join: concatenation of the operand fields, operand i without its last frame when
+    discard_overlapping_frames is set and that frame equals (all |dx| < 2e-3) the first frame of operand i+1"""
+    keep = [x.n_frames for x in alls]
+    if dis:
+        for i in range(len(alls) - 1):
+            x0, x1 = np.asarray(alls[i]._xyz)[-1], np.asarray(alls[i + 1]._xyz)[0]
+            if np.all(np.abs(x1 - x0) < 2e-3):
+                keep[i] -= 1
+    out = {}
+    for nm in ("_xyz", "_time", "_unitcell_lengths", "_unitcell_angles"):
+        if all(getattr(x, nm) is not None for x in alls):
+            out[nm] = np.concatenate([np.asarray(getattr(x, nm))[:k] for x, k in zip(alls, keep)])
+    return out
+
+
+def check_join(prop, si, new, want, first):
+    if want is None:
+        return
+    for nm in ("_xyz", "_time"):
+        if not np.array_equal(np.asarray(getattr(new, nm)), want[nm]):
+            prop.append({"step": si, "kind": "field-not-numpy-concatenate", "field": nm})
+    if first._have_unitcell:
+        for nm in ("_unitcell_lengths", "_unitcell_angles"):
+            if getattr(new, nm) is None or nm not in want or not np.array_equal(np.asarray(getattr(new, nm)), want[nm]):
+                prop.append({"step": si, "kind": "field-not-numpy-concatenate", "field": nm})
+
+
 def run_case(md, case):
     seed = case["seed"]
     nsrc = 0
@@ -259,30 +287,31 @@ def run_case(md, case):
                             prop.append({"step": si, "kind": "field-not-numpy-index", "field": nm})
             elif name == "join":
                 _, r, others, chk = op[:4]
+                dis = bool(len(op) > 5 and op[5])
                 t = regs[r]
                 os_ = [regs[o] for o in others]
                 alls = [t] + os_
-                if len(os_) == 1 and chk and (len(op) > 4 and op[4] == "plus"):
+                want = None
+                try:
+                    want = expected_join(alls, dis)
+                except Exception:  # noqa: BLE001   (empty operand: the implementation must raise as well)
+                    want = None
+                if len(os_) == 1 and chk and not dis and (len(op) > 4 and op[4] == "plus"):
                     new = t + os_[0]
                 elif len(os_) == 1:
-                    new = t.join(os_[0], check_topology=chk)
+                    new = t.join(os_[0], check_topology=chk, discard_overlapping_frames=dis)
                 else:
-                    new = t.join(os_, check_topology=chk)
-                if not np.array_equal(new.xyz, np.concatenate([x._xyz for x in alls])):
-                    prop.append({"step": si, "kind": "field-not-numpy-concatenate", "field": "xyz"})
-                if not np.array_equal(new.time, np.concatenate([x._time for x in alls])):
-                    prop.append({"step": si, "kind": "field-not-numpy-concatenate", "field": "time"})
-                for nm in ("_unitcell_lengths", "_unitcell_angles"):
-                    if all(getattr(x, nm) is not None for x in alls) and t._have_unitcell:
-                        if getattr(new, nm) is None or not np.array_equal(getattr(new, nm), np.concatenate([getattr(x, nm) for x in alls])):
-                            prop.append({"step": si, "kind": "field-not-numpy-concatenate", "field": nm})
+                    new = t.join(os_, check_topology=chk, discard_overlapping_frames=dis)
+                check_join(prop, si, new, want, t)
             elif name == "mdjoin":
                 alls = [regs[r] for r in op[1]]
-                new = md.join(alls)
-                if not np.array_equal(new.xyz, np.concatenate([x._xyz for x in alls])):
-                    prop.append({"step": si, "kind": "field-not-numpy-concatenate", "field": "xyz"})
-                if not np.array_equal(new.time, np.concatenate([x._time for x in alls])):
-                    prop.append({"step": si, "kind": "field-not-numpy-concatenate", "field": "time"})
+                dis = bool(len(op) > 2 and op[2])
+                try:
+                    want = expected_join(alls, dis)
+                except Exception:  # noqa: BLE001
+                    want = None
+                new = md.join(alls, discard_overlapping_frames=dis)
+                check_join(prop, si, new, want, alls[0])
             elif name == "stack":
                 t, o = regs[op[1]], regs[op[2]]
                 new = t.stack(o)
